@@ -1491,8 +1491,19 @@ def n4b_ifexp_assign(fnode, base_hashes):
                         else ast.Assign(targets=[clone(t) for t in
                                                  st.targets], value=v)
                     return ast.copy_location(n, st)
-                iff = ast.If(test=st.value.test, body=[mk(st.value.body)],
-                             orelse=[mk(st.value.orelse)])
+                def selfassign(n):
+                    return isinstance(n, ast.Assign) and \
+                        len(n.targets) == 1 and \
+                        isinstance(n.targets[0], ast.Name) and \
+                        isinstance(n.value, ast.Name) and \
+                        n.value.id == n.targets[0].id
+                b1, b2 = mk(st.value.body), mk(st.value.orelse)
+                test = st.value.test
+                if selfassign(b1) and not selfassign(b2):
+                    test = ast.UnaryOp(op=ast.Not(), operand=test)
+                    b1, b2 = b2, b1
+                iff = ast.If(test=test, body=[b1],
+                             orelse=[] if selfassign(b2) else [b2])
                 ast.copy_location(iff, st)
                 ast.fix_missing_locations(iff)
                 out.append(iff)
@@ -1611,6 +1622,11 @@ def _value_pure(e):
 
 
 _BASE_STMTS = {}
+
+
+def _differs(f, base_hashes):
+    from . import churn
+    return any(h not in base_hashes for h in churn.stmts_of(f.node))
 
 
 def _stmt_hashes(f):
@@ -1986,6 +2002,178 @@ def n6_single_use_temps(fnode, keep=()):
     if not fnode.body:
         fnode.body = [ast.Pass()]
     return changed[0]
+
+
+# ------------------------------------------------------------------ N9 --------
+
+def _h12(st):
+    import hashlib
+    return hashlib.sha1(ast.dump(st).encode('utf-8', 'replace')) \
+        .hexdigest()[:12]
+
+
+def _walk_stmt_lists(fnode):
+    """every statement list of the function's own body (not nested defs)"""
+    out = []
+
+    def rec(stmts):
+        out.append(stmts)
+        for st in stmts:
+            if isinstance(st, (ast.FunctionDef, ast.AsyncFunctionDef,
+                               ast.ClassDef)):
+                continue
+            for fld in ('body', 'orelse', 'finalbody'):
+                sub = getattr(st, fld, None)
+                if isinstance(sub, list):
+                    rec(sub)
+            for hd in getattr(st, 'handlers', []) or []:
+                rec(hd.body)
+    rec(fnode.body)
+    return out
+
+
+def n9_restore_statements(fnode, base_hashes):
+    """statement spellings the pinned function has and the analysed one
+    spells differently, restored when the two are the same statement:
+
+      T = T op E          ->  T op= E     (T a name or a.b.c; numbers, bytes,
+                                           str and tuples: no aliasing)
+      a, b = x, y         ->  a = x; b = y   (a not read by y)
+      a = x; b = y        ->  a, b = x, y    (adjacent, a not read by y)
+
+    only when the restored statement is one the pinned function has and the
+    present spelling is not (baseline statement hashes)."""
+    if not base_hashes:
+        return False
+    changed = False
+    for stmts in _walk_stmt_lists(fnode):
+        i = 0
+        while i < len(stmts):
+            st = stmts[i]
+            if isinstance(st, ast.Assign) and _h12(st) not in base_hashes:
+                # T = T op E
+                if len(st.targets) == 1 and isinstance(
+                        st.value, ast.BinOp) and isinstance(
+                        st.targets[0], (ast.Name, ast.Attribute)) and \
+                        _pure_path(st.targets[0]) and ast.dump(
+                            _as_load(st.targets[0])) == ast.dump(
+                            st.value.left):
+                    aug = ast.copy_location(ast.AugAssign(
+                        target=st.targets[0], op=st.value.op,
+                        value=st.value.right), st)
+                    if _h12(aug) in base_hashes:
+                        stmts[i] = aug
+                        changed = True
+                        i += 1
+                        continue
+                # a, b = x, y
+                if len(st.targets) == 1 and isinstance(
+                        st.targets[0], ast.Tuple) and isinstance(
+                        st.value, ast.Tuple) and len(
+                        st.targets[0].elts) == len(st.value.elts) and all(
+                        isinstance(t, ast.Name) for t in st.targets[0].elts):
+                    names = [t.id for t in st.targets[0].elts]
+                    ok = all(not _name_occ(v, n)
+                             for k, v in enumerate(st.value.elts)
+                             for n in names[:k])
+                    parts = [ast.copy_location(ast.Assign(
+                        targets=[t], value=v), st) for t, v in zip(
+                            st.targets[0].elts, st.value.elts)]
+                    if ok and all(_h12(q) in base_hashes for q in parts):
+                        stmts[i:i + 1] = parts
+                        changed = True
+                        i += len(parts)
+                        continue
+                # a = x; b = y  ->  a, b = x, y
+                if i + 1 < len(stmts) and len(st.targets) == 1 and \
+                        isinstance(st.targets[0], ast.Name):
+                    nx = stmts[i + 1]
+                    if isinstance(nx, ast.Assign) and len(nx.targets) == 1 \
+                            and isinstance(nx.targets[0], ast.Name) and \
+                            _h12(nx) not in base_hashes and \
+                            not _name_occ(nx.value, st.targets[0].id):
+                        tup = ast.copy_location(ast.Assign(
+                            targets=[ast.Tuple(elts=[st.targets[0],
+                                                     nx.targets[0]],
+                                               ctx=ast.Store())],
+                            value=ast.Tuple(elts=[st.value, nx.value],
+                                            ctx=ast.Load())), st)
+                        if _h12(tup) in base_hashes:
+                            stmts[i:i + 2] = [tup]
+                            changed = True
+                            i += 1
+                            continue
+            elif isinstance(st, ast.AugAssign) and \
+                    _h12(st) not in base_hashes and isinstance(
+                        st.target, (ast.Name, ast.Attribute)) and \
+                    _pure_path(st.target):
+                # T op= E  ->  T = T op E   (the pinned spelling)
+                plain = ast.copy_location(ast.Assign(
+                    targets=[st.target], value=ast.BinOp(
+                        left=_as_load(st.target), op=st.op,
+                        right=st.value)), st)
+                ast.fix_missing_locations(plain)
+                if _h12(plain) in base_hashes:
+                    stmts[i] = plain
+                    changed = True
+            i += 1
+    if changed:
+        ast.fix_missing_locations(fnode)
+    return changed
+
+
+def n11_rename_locals(fnode, keep, base_hashes):
+    """a NEW local name, where a local name of the pinned function no longer
+    occurs at all: renaming new -> old is an alpha-renaming (no capture: the
+    old name is unused), applied when it makes statements equal to pinned
+    ones.  -> number of renamings"""
+    if not base_hashes:
+        return 0
+    params = {a.arg for a in fnode.args.args + fnode.args.kwonlyargs +
+              fnode.args.posonlyargs}
+    if fnode.args.vararg:
+        params.add(fnode.args.vararg.arg)
+    if fnode.args.kwarg:
+        params.add(fnode.args.kwarg.arg)
+    present = {x.id for x in ast.walk(fnode) if isinstance(x, ast.Name)}
+    present |= {a.arg for x in ast.walk(fnode)
+                if isinstance(x, ast.arguments)
+                for a in x.args + x.kwonlyargs + x.posonlyargs}
+    for x in ast.walk(fnode):
+        if isinstance(x, (ast.Global, ast.Nonlocal)):
+            return 0
+    stored = {x.id for x in ast.walk(fnode) if isinstance(x, ast.Name) and
+              isinstance(x.ctx, (ast.Store, ast.Del))}
+    new = sorted(n for n in stored if n not in keep and n not in params)
+    missing = sorted(o for o in keep if o not in present and o not in params)
+    if not new or not missing:
+        return 0
+    from . import churn
+
+    def score():
+        return sum(1 for h in churn.stmts_of(fnode) if h in base_hashes)
+
+    def rename(a, b):
+        for x in ast.walk(fnode):
+            if isinstance(x, ast.Name) and x.id == a:
+                x.id = b
+    done = 0
+    for n in new:
+        base = score()
+        best = None
+        for o in missing:
+            rename(n, o)
+            sc = score()
+            rename(o, n)
+            if sc > base and (best is None or sc > best[0]):
+                best = (sc, o)
+        if best is not None:
+            rename(n, best[1])
+            missing.remove(best[1])
+            done += 1
+            if not missing:
+                break
+    return done
 
 
 # ------------------------------------------------------------------ N8 --------
@@ -2483,6 +2671,11 @@ def normalise(model, stats=None):
                 any_change = True
                 n7_touched.add(f.module.name)
                 ast.fix_missing_locations(f.node)
+            bh = _stmt_hashes(f)
+            if bh and _differs(f, bh) and n9_restore_statements(f.node, bh):
+                count['N9'] = count.get('N9', 0) + 1
+                any_change = True
+                n7_touched.add(f.module.name)
         for m in model.modules.values():
             if m.name in n7_touched:
                 _reparent(m.tree)
@@ -2532,6 +2725,9 @@ def normalise(model, stats=None):
                 any_change = True
             if n6_single_use_temps(f.node, keep):
                 count['N6'] = count.get('N6', 0) + 1
+                any_change = True
+            if n11_rename_locals(f.node, keep, _stmt_hashes(f)):
+                count['N11'] = count.get('N11', 0) + 1
                 any_change = True
             if n8_append_loops(f.node, _stmt_hashes(f), keep):
                 count['N8'] = count.get('N8', 0) + 1
